@@ -85,7 +85,81 @@ class Boundary:
             return self.counter(e[1], depth)
         if e[0] == "cast" and e[1] == "usize":
             return self.ok(e[2], depth + 1)
+        # the offset char_indices reports for a character of the sliced string
+        if e[0] == "place" and [x for x in e[2] if x != "deref"] == [("downcast", "Some"), ("field", "0"), ("field", "0")] and e[1][0] == "call" \
+                and e[1][1].endswith("CharIndices as std::iter::Iterator>::next") and self._char_indices_of_recv(e[1][2][0]):
+            return True, "an offset reported by char_indices"
+        # the number of leading bytes that pass an ASCII-only test: bytes().take_while(P).count()
+        if e[0] == "call" and e[1].endswith("Iterator::count") and e[2] and e[2][0][0] == "call" and e[2][0][1].endswith("Iterator::take_while") \
+                and self._bytes_of_recv(e[2][0][2][0]) and self._ascii_only(e[2][0][2][1]):
+            return True, "the length of a leading run of ASCII bytes"
+        # the position of the first byte that passes an ASCII-only test, or the length: bytes().position(P).unwrap_or(len)
+        if e[0] == "call" and e[1].endswith("Option::unwrap_or") and len(e[2]) == 2 and e[2][0][0] == "call" and e[2][0][1].endswith("Iterator::position") \
+                and self._bytes_of_recv(e[2][0][2][0]) and self._ascii_only(e[2][0][2][1]):
+            return self.ok(e[2][1], depth + 1)
         return False, "offset %s" % cfg.expr_str(e)[:100]
+
+    def _strip(self, e):
+        for _ in range(8):
+            if e[0] == "ref":
+                e = e[1]
+            elif e[0] == "place" and all(x == "deref" for x in e[2]):
+                e = e[1]
+            else:
+                break
+        return e
+
+    def _expand(self, e):
+        """look through a local that holds a copy of a reference (`let s = self.buffer;`)"""
+        x = e
+        for _ in range(4):
+            y = x
+            while y[0] == "ref":
+                y = y[1]
+            if y[0] == "place" and y[1][0] == "local" and all(p == "deref" for p in y[2]):
+                x = cfg.expr_local(self.f, y[1][1], 8)
+            elif y[0] == "local":
+                x = cfg.expr_local(self.f, y[1], 8)
+            else:
+                break
+        return x
+
+    def _char_indices_of_recv(self, e):
+        e = self._strip(e)
+        if e[0] == "call" and e[1].endswith("IntoIterator>::into_iter"):
+            e = self._strip(e[2][0])
+        return e[0] == "call" and e[1] == "str::char_indices" and (_same_str(e[2][0], self.recv) or _same_str(self._expand(e[2][0]), self.recv))
+
+    def _bytes_of_recv(self, e):
+        e = self._strip(e)
+        if e[0] == "call" and e[1].endswith("IntoIterator>::into_iter"):
+            e = self._strip(e[2][0])
+        if e[0] == "call" and e[1] == "str::bytes":
+            return _same_str(e[2][0], self.recv)
+        if e[0] == "call" and e[1] in ("[T]::iter", "core::slice::<impl [T]>::iter"):
+            b = self._strip(e[2][0])
+            return b[0] == "call" and b[1] == "str::as_bytes" and _same_str(b[2][0], self.recv)
+        return False
+
+    def _ascii_only(self, clo):
+        """the one-argument test (a closure over a byte) accepts ASCII bytes only - folded over all 256 values"""
+        if clo[0] != "closure" or clo[1] not in self.F.fns or clo[2]:
+            return False
+        g = self.F.fns[clo[1]]
+        ty = g.locals[2]["ty"] if len(g.locals) > 2 else ""
+        if ty.lstrip("&") != "u8":
+            return False
+        try:
+            acc = set()
+            for c in range(256):
+                v = c
+                for _ in range(len(ty) - len(ty.lstrip("&"))):
+                    v = ("ref", v)
+                if self.fo.call(g.key, [("zst",), v]):
+                    acc.add(c)
+        except (fold.Unsupported, fold.Diverged):
+            return False
+        return all(c < 128 for c in acc)
 
     def counter(self, l, depth):
         f = self.f
@@ -94,6 +168,10 @@ class Boundary:
         self.assumed.add(l)
         defs = cfg.defs_of_local(f, l)
         for d in defs:
+            if d[0] == "call":
+                ck = (d[2]["f"].get("fn") or {}).get("key", "")
+                if ck == "str::len" and _same_str(self._expand(cfg.expr_operand(f, d[2]["args"][0], 8)), self.recv):
+                    continue
             if d[0] != "stmt":
                 return False, "variable %s is assigned from a call" % (f.local_name(l) or l)
             bb, st = d[1], d[3]
@@ -110,7 +188,7 @@ class Boundary:
                 return False, "variable %s is incremented by one without a test that the byte it indexes is ASCII" % (f.local_name(l) or l)
             if inc and e[1][3][0] == "call" and e[1][3][1] == "char::len_utf8":
                 continue
-            r, why = self.ok(e, depth + 1)
+            r, why = self.ok(cfg.expr_operand(f, rv["a"], 12), depth + 1)
             if not r:
                 return False, "variable %s: %s" % (f.local_name(l) or l, why)
         return True, "ASCII counter"
